@@ -152,10 +152,26 @@ def _plumbing(ctx):
         ctx.add("R03.5", "C03/core-unseal-plumbing", ok, detail, site)
 
 _run1 = run
+def _parser(ctx):
+    """R03.6 (shared with C09 R09.1/R09.2 for the token text form): every conforming token text is accepted — the parser strips the
+    header constants, base64-decodes the whole remainder into a Vec of whatever size (no fixed buffer, no trim) and nothing else."""
+    import c09
+    class Scratch:
+        def __init__(s): s.findings = []; s.world = ctx.world; s.crates = ctx.crates; s.analysed = {"functions": 0, "paths": 0, "call_sites": 0}; s.notes = []; s.tier = ctx.tier
+        def add(s, rule, k, ok, detail="", site=None, facts=None): s.findings.append((rule, k, ok, detail, site))
+        def sample(s, x): pass
+    sc = Scratch()
+    c09.run(sc)
+    for (rule, k, ok, detail, site) in sc.findings:
+        if k in ("C09/mirror/SealedToken", "C09/remainder/SealedToken"):
+            ctx.add("R03.6", "C03/token-parser/" + k.split("/")[1], ok, detail, site)
+
 def run(ctx):
     _run1(ctx)
     _plumbing(ctx)
+    _parser(ctx)
 FLOORS["R03.5"] = 1
+FLOORS["R03.6"] = 2
 
 PARSE_OK = ("ed25519::Signature::from_bytes", "ecdsa::Signature::<NistP384>::from_bytes", "<Signature as TryFrom<&[u8]>>::try_from",
             "lc::Signature::from_bytes", "ed25519_dalek::verifying::VerifyingKey::verify_stream")
